@@ -107,7 +107,7 @@ func Run(r *ev.Run, replay string) {
 	if err := ev.ReadJSON(ev.Root+"/witnesses/C12.json", &wit); err != nil {
 		r.Inconclusive("witnesses/C12.json: " + err.Error())
 	}
-	n := r.N(4000, 80000)
+	n := r.N(8000, 80000)
 	var wg sync.WaitGroup
 	for _, sg := range systems() {
 		for _, w := range wit {
